@@ -305,6 +305,23 @@ Theorem cone_factory_coverage_repaired : forall rho rs rd xn xt : R,
 Proof. exact cone_factory_coverage_repaired_l. Qed.
 Print Assumptions cone_factory_coverage_repaired.
 
+(* helical_geometry: offset_along_axis = min_z and pitch = (max_z - min_z) / num_turns make the source travel exactly
+   from the bottom to the top of the volume over the angle range [0, 2 pi num_turns] *)
+Theorem helical_factory_spans_volume : forall (g : cone) (zmin zmax turns twopi : R),
+  turns <> 0 -> twopi <> 0 ->
+  c_off g = fst (helical_params zmin zmax turns) -> c_pitch g = snd (helical_params zmin zmax turns) ->
+  cone_along g 0 twopi 0 = zmin /\ cone_along g (twopi * turns) twopi 0 = zmax.
+Proof. exact helical_span. Qed.
+Print Assumptions helical_factory_spans_volume.
+
+(* cone_beam_geometry, 3-d: the detector half height sin(arctan t) (rs + rd) = t / sqrt(1 + t^2) (rs + rd) chosen before
+   the pixel round-up is strictly smaller than the t (rs + rd) that full vertical coverage needs -- for EVERY t > 0
+   (recorded finding C19/cone-beam-geometry-vertical-coverage; the round-up hides it only sometimes) *)
+Theorem cone_factory_vertical_coverage_refuted : forall t rs rd : R, 0 < t -> 0 < rs + rd ->
+  cone_factory_halfheight sqrt t rs rd < t * (rs + rd).
+Proof. exact cone_vertical_refuted. Qed.
+Print Assumptions cone_factory_vertical_coverage_refuted.
+
 (* ===================== 6. slicing by angle index (__getitem__) ===================== *)
 (* Parallel2dGeometry: geom[i:j] is rebuilt from the un-translated det_pos_init, the detector axis argument and the
    translation, and IS the same geometry (same det_pos_init, translation, detector) -- all arguments *)
@@ -320,6 +337,27 @@ Theorem parallel2d_slice_old_call_refuted : forall (pos : R * R) (ax : option (R
   p2_pos g' = add2 (p2_pos g) tr /\ (tr <> (0, 0) -> p2_pos g' <> p2_pos g).
 Proof. exact par2d_getitem_old_l. Qed.
 Print Assumptions parallel2d_slice_old_call_refuted.
+
+(* The other classes: __getitem__ passes the NORMALISED axis / src_to_det_init and the ORIGINAL optional arguments.
+   For geometries built with explicit initial vectors the rebuilt geometry is identical (all detector types, radii,
+   pitch, offset, translation).  When an initial vector is defaulted it is re-derived by transform_system from the
+   normalised principal vector; its allclose test is not scale invariant, so exact identity is only validated there
+   (correspondence + probes), not proved. *)
+Theorem parallel3d_axis_slice : forall (axis pos : R * R * R) (axes : (R * R * R) * (R * R * R)) (tr : R * R * R) (g : par3a),
+  mk_par3a sqrt axis (Some pos) (Some axes) tr = Some g -> par3a_getitem sqrt g = Some g.
+Proof. exact par3a_getitem_same. Qed.
+Print Assumptions parallel3d_axis_slice.
+
+Theorem fanbeam_slice : forall (rs rd : R) (curv : option R) (s2d ax : R * R) (tr : R * R) (g : fan),
+  mk_fan sqrt rs rd curv s2d (Some ax) tr = Some g -> fan_getitem sqrt g (Some ax) = Some g.
+Proof. exact fan_getitem_same. Qed.
+Print Assumptions fanbeam_slice.
+
+Theorem conebeam_slice : forall (fixed : bool) (rs rd : R) (curv : curv3) (pitch off : R) (axis sd : R * R * R)
+    (axes : (R * R * R) * (R * R * R)) (tr : R * R * R) (g : cone),
+  mk_cone sqrt fixed rs rd curv pitch off axis (Some sd) (Some axes) tr = Some g -> cone_getitem sqrt fixed g = Some g.
+Proof. exact cone_getitem_same. Qed.
+Print Assumptions conebeam_slice.
 
 (* ============ 7. detector surface parametrisations and their derivatives ============ *)
 (* CircularDetector: surface(0) = 0; the surface is the circle of radius r about [circ_transl];
@@ -447,6 +485,16 @@ Theorem conebeam_frommatrix : forall (fixed : bool) (rs rd pitch off : R) m (tr 
   c_axis g = mv3 m (0, 0, 1).
 Proof. exact cone_frommatrix_spec. Qed.
 Print Assumptions conebeam_frommatrix.
+
+(* Parallel3dEulerGeometry.frommatrix: the Euler rotation does not commute with m, so the statement is about the
+   initial configuration: it is t + m (default initial configuration), Euler-rotated about the translation point *)
+Theorem parallel3d_euler_frommatrix : forall m (tr : R * R * R) (g : par3d) (ph th ps : R * R) (p : dpar3),
+  is_rot3 m -> par3d_frommatrix sqrt m tr = Some g ->
+  par3d_detpoint g ph th ps p =
+    add3 tr (mv3 (euler3 ph th ps) (mv3 m (par3d_detpoint par3d_default (1, 0) (1, 0) (1, 0) p))) /\
+  p3_tr g = tr.
+Proof. exact par3d_frommatrix_spec. Qed.
+Print Assumptions parallel3d_euler_frommatrix.
 
 (* ---- curved detectors with non-default axes.  Full statement "a cone beam geometry with a cylindrical or
    spherical detector built by frommatrix (or directly on rotated axes) is the rigid-motion image of the default
